@@ -28,6 +28,7 @@ type Exec struct {
 	edgeFrom   map[*State]*ssa.BasicBlock
 	rg         *RG
 	readLog    map[string]bool
+	entryMeasure Term
 }
 
 type exitRec struct {
